@@ -193,14 +193,45 @@ pub fn check_zone(cyc: &Cycle, z: &MZone, probes: &[i64], rec: &Recorder, sweep:
                     routes.push(("DateTime::project from a type with the same offset", d0.project(zr)));
                 }
             }
+            // a source that was GIVEN as second 60 of the previous minute (its instant is u) seen at the same offset
+            if let Some(lu) = u.checked_add(l.ut_offset() as i64) {
+                if lu.rem_euclid(60) == 0 && lu - 1 >= MIN_UNIX_TIME && lu <= MAX_UNIX_TIME {
+                    let (pc, ph, pm, _) = cyc.gmtime(lu - 1);
+                    if let Ok(src) = tz::LocalTimeType::new(l.ut_offset(), !l.is_dst(), Some(b"SRC")) {
+                        if let Ok(d0) = DateTime::new(pc.year as i32, pc.month, pc.mday, ph, pm, 60, 17, src) {
+                            if d0.unix_time() == u {
+                                routes.push(("DateTime::project of a date-time given with second 60", d0.project(zr)));
+                            }
+                        }
+                    }
+                }
+            }
             for (name, r) in routes {
                 match r {
                     Ok(d) => {
+                        let fields_ok = match u.checked_add(l.ut_offset() as i64) {
+                            Some(lu) if lu >= MIN_UNIX_TIME && lu <= MAX_UNIX_TIME => {
+                                let (c, h, mi, se) = cyc.gmtime(lu);
+                                d.year() as i64 == c.year && d.month() == c.month && d.month_day() == c.mday && d.hour() == h && d.minute() == mi && d.second() == se
+                            }
+                            _ => true,
+                        };
+                        if !fields_ok {
+                            rec.violation(sweep, case(), json!({"route": name, "fields_of": u}), json!(format!("{d:?}")));
+                        }
                         if d.local_time_type() != *l || d.unix_time() != u || d.nanoseconds() != 17 {
                             rec.violation(sweep, case(), json!({"route": name, "type": type_json(l), "unix_time": u}), json!(format!("{d:?}")));
                         }
                     }
-                    Err(TzError::OutOfRange) => {}
+                    // a refusal is right only when the local date-time of the instant is not representable
+                    Err(TzError::OutOfRange) => {
+                        let local_ok = u.checked_add(l.ut_offset() as i64).map_or(false, |lu| lu >= MIN_UNIX_TIME && lu <= MAX_UNIX_TIME);
+                        // the routes that start from a UTC date-time also need the instant itself in the UTC range
+                        let utc_ok = u >= MIN_UNIX_TIME && u <= MAX_UNIX_TIME;
+                        if local_ok && (utc_ok || !name.starts_with("UtcDateTime")) {
+                            rec.violation(sweep, case(), json!({"route": name, "type": type_json(l), "local_date_time_representable": true}), json!("OutOfRange"));
+                        }
+                    }
                     Err(e) => rec.violation(sweep, case(), json!({"route": name, "type": type_json(l)}), json!(err_name(&e))),
                 }
             }
